@@ -1350,6 +1350,15 @@ XSLTEngineImpl::addResultAttribute(
 
         if (fExcludeAttribute == false)
         {
+            // An attribute in a namespace that is set again must count as the
+            // most recent one when flushPending() compares expanded names, so
+            // it moves to the end of the list instead of being updated in place.
+            if (indexOf(aname, XalanUnicode::charColon) < aname.length() &&
+                startsWith(aname, DOMServices::s_XMLNamespaceWithSeparator) == false)
+            {
+                attList.removeAttribute(aname.c_str());
+            }
+
             attList.addAttribute(
                 aname.c_str(),
                 Constants::ATTRTYPE_CDATA.c_str(),
@@ -1413,6 +1422,105 @@ XSLTEngineImpl::pendingAttributesHasDefaultNS() const
     }
 
     return false;
+}
+
+
+
+inline bool
+isNamespacedAttributeName(
+            const XalanDOMChar*         theName,
+            XalanDOMString::size_type   theLength,
+            XalanDOMString::size_type   theColonIndex)
+{
+    return theColonIndex < theLength &&
+           startsWith(theName, DOMServices::s_XMLNamespaceWithSeparator) == false;
+}
+
+
+
+void
+XSLTEngineImpl::removeReplacedPendingAttributes()
+{
+    assert(m_executionContext != 0);
+
+    AttributeListImpl&  thePendingAttributes = getPendingAttributesImpl();
+
+    if (thePendingAttributes.getLength() < 2)
+    {
+        return;
+    }
+
+    const ECGetCachedString     theLaterPrefixGuard(*m_executionContext);
+    const ECGetCachedString     theEarlierPrefixGuard(*m_executionContext);
+    const ECGetCachedString     theNameGuard(*m_executionContext);
+
+    XalanDOMString&     theLaterPrefix = theLaterPrefixGuard.get();
+    XalanDOMString&     theEarlierPrefix = theEarlierPrefixGuard.get();
+    XalanDOMString&     theNameToRemove = theNameGuard.get();
+
+    // Adding an attribute replaces any existing attribute with the same
+    // expanded name.  The attribute list is keyed by qualified name, so
+    // attributes with different prefixes for one namespace are compared
+    // here, when all of the element's namespace declarations are known.
+    XalanSize_t     theLater = thePendingAttributes.getLength();
+
+    while (theLater > 1)
+    {
+        --theLater;
+
+        const XalanDOMChar*     theLaterName = thePendingAttributes.getName(theLater);
+
+        const XalanDOMString::size_type     theLaterLength = length(theLaterName);
+        const XalanDOMString::size_type     theLaterColon = indexOf(theLaterName, XalanUnicode::charColon);
+
+        if (isNamespacedAttributeName(theLaterName, theLaterLength, theLaterColon) == false)
+        {
+            continue;
+        }
+
+        theLaterPrefix.assign(theLaterName, theLaterColon);
+
+        const XalanDOMString* const     theLaterNamespace = getResultNamespaceForPrefix(theLaterPrefix);
+
+        if (theLaterNamespace == 0)
+        {
+            continue;
+        }
+
+        XalanSize_t     theEarlier = theLater;
+
+        while (theEarlier > 0)
+        {
+            --theEarlier;
+
+            const XalanDOMChar* const   theEarlierName = thePendingAttributes.getName(theEarlier);
+
+            const XalanDOMString::size_type     theEarlierLength = length(theEarlierName);
+            const XalanDOMString::size_type     theEarlierColon = indexOf(theEarlierName, XalanUnicode::charColon);
+
+            if (isNamespacedAttributeName(theEarlierName, theEarlierLength, theEarlierColon) == true &&
+                equals(theEarlierName + theEarlierColon, theLaterName + theLaterColon) == true)
+            {
+                theEarlierPrefix.assign(theEarlierName, theEarlierColon);
+
+                const XalanDOMString* const     theEarlierNamespace =
+                    getResultNamespaceForPrefix(theEarlierPrefix);
+
+                if (theEarlierNamespace != 0 && *theEarlierNamespace == *theLaterNamespace)
+                {
+                    // Copy the name, since removing the attribute invalidates it.
+                    theNameToRemove.assign(theEarlierName);
+
+                    thePendingAttributes.removeAttribute(theNameToRemove.c_str());
+
+                    // The later attribute has moved down...
+                    --theLater;
+
+                    theLaterName = thePendingAttributes.getName(theLater);
+                }
+            }
+        }
+    }
 }
 
 
@@ -1501,6 +1609,8 @@ XSLTEngineImpl::flushPending()
         {
             m_cdataStack.push_back(isCDataResultElem(thePendingElementName));
         }
+
+        removeReplacedPendingAttributes();
 
         AttributeListImpl&  thePendingAttributes =
                 getPendingAttributesImpl();
